@@ -26,21 +26,21 @@ func (Prop) Describe() core.Description {
 	return core.Description{
 		Level: "fault_enumeration",
 		Rule: "enumerated part (walked completely, every tier): 6 helpers x {V, *P} x 8 behaviours of the type under test x 4 Before x 4 After hook behaviours (a fifth, panicking with an error value whose Error method cannot be called, has a block of its own) x 25 predicate kinds (met, unmet, near-miss, one-byte-longer, empty, dot-must-not-cross-newline and three caller-written silent variants) x 3 constraints x 4 positions {only, first, middle, last of 3} (+ TypeHelper variants, + types lacking the interface under both FailNow environments); " +
-			"seeded part: lists of 0-12 cases (one list in 40: 13-64 cases) with tape-chosen combinations, several faults per list, 18 type shapes (V, *P, TextOnly/BinOnly/JSONOnly implementing one encoding each, P as a value type with pointer-receiver methods, Doc with an interface-typed field, *L with a memoising String, *V, interface-typed Both holding *P or *Q, string-kinded Str, slice-kinded Bytes, map-kinded Map, integer-kinded Num, uint8-kinded Byte, OnlyM, OnlyU, None), both TestingT environments, optional recording TypeHelper, singleton re-runs of every case. " +
+			"seeded part: lists of 0-12 cases (one list in 40: 13-64 cases) with tape-chosen combinations, several faults per list, 19 type shapes (V, *P, *Map as a pointer to a map, TextOnly/BinOnly/JSONOnly implementing one encoding each, P as a value type with pointer-receiver methods, Doc with an interface-typed field, *L with a memoising String, *V, interface-typed Both holding *P or *Q, string-kinded Str, slice-kinded Bytes, map-kinded Map, integer-kinded Num, uint8-kinded Byte, OnlyM, OnlyU, None), both TestingT environments, optional recording TypeHelper, singleton re-runs of every case. " +
 			"Oracle written from the statement: per case, failure reported <=> applicable and unsatisfied (L2), nothing for inapplicable cases (L4), no panic escapes (L3), type lacking the interface reported (L1), hooks receive their case's list position (L5). " +
 			"A list is non-trivial if a collaborator fault fired in an applicable case; distinct = distinct (helper, shape, position class, constraint, behaviour, hooks, predicate, verdict) tuples reached",
 		Assumptions: []string{
 			"a panic of the type under test counts as an error whose text begins 'panic: <value>\\n' (pinned by the library's own Test_MarshalText_Panic and CHANGELOG 0.8.0)",
 			"two corners the statement leaves open are not generated: an error returned with a non-nil but empty slice; hooks that mutate the case they are handed. A non-empty list for a type lacking the interface is expected to be reported whatever the constraints of its cases (the type is a property of T, not of a case; anchor: interface check on the first case)",
 			"failures are attributed to cases by bracketing recorder events between the scripted collaborator invocations of consecutive cases",
-			"lists longer than 64 cases and types other than the eighteen scripted shapes are outside the bound",
+			"lists longer than 64 cases and types other than the nineteen scripted shapes are outside the bound",
 		},
 		Real: []string{"test.MarshalText/Binary/JSON", "test.UnmarshalText/Binary/JSON", "callForCase, safe*, castToFunc, helperNew, helperAssert*", "AnyError/Error/ErrorHasPrefix/ErrorHasSuffix/ErrorMatch", "testify assert"},
 		Stub: []string{"types under test (scripted V, *P, *V, interface-typed Both, Str, Bytes, Map, Num, OnlyM, OnlyU, None)", "Before/After hooks (scripted)", "TestingT (recorder; FailNow returns / exits goroutine)", "TypeHelper (recording)"},
 		Notes: map[string]string{
 			"sim_time_note": "C20 has no clock in it; sim_time_ns is 0 by construction",
 		},
-		RequiredProbesQuick: []string{"panic_recovered_call", "panic_recovered_hook", "error_with_data", "wrong_data_only", "inapplicable_faulty", "goexit_env", "invalid_regexp", "lacking_interface", "lacking_interface_all_inapplicable", "typehelper_used", "nil_receiver", "nil_value_unmarshal", "nil_interface_value", "long_list", "before_hook_adjusts_case", "asymmetric_typehelper_wildcard", "cloning_typehelper", "emptied_not_nil", "listed_nil_value", "second_concrete_type", "listed_empty_data", "json_equivalent_wrong_data", "lenient_equal_method", "panic_value_with_uncallable_error_method", "nil_interface_value_first_case", "listed_nil_input", "pointer_receiver_value_type", "before_hook_installs_or_clears_predicate", "big_payload", "interface_field_holding_a_map", "memoising_stringer", "other_dynamic_type_behind_interface", "single_encoding_type"},
+		RequiredProbesQuick: []string{"panic_recovered_call", "panic_recovered_hook", "error_with_data", "wrong_data_only", "inapplicable_faulty", "goexit_env", "invalid_regexp", "lacking_interface", "lacking_interface_all_inapplicable", "typehelper_used", "nil_receiver", "nil_value_unmarshal", "nil_interface_value", "long_list", "before_hook_adjusts_case", "asymmetric_typehelper_wildcard", "cloning_typehelper", "emptied_not_nil", "listed_nil_value", "second_concrete_type", "listed_empty_data", "json_equivalent_wrong_data", "lenient_equal_method", "panic_value_with_uncallable_error_method", "nil_interface_value_first_case", "listed_nil_input", "pointer_receiver_value_type", "before_hook_installs_or_clears_predicate", "big_payload", "interface_field_holding_a_map", "memoising_stringer", "other_dynamic_type_behind_interface", "single_encoding_type", "after_hook_adjusts_expectation", "pointer_to_emptied_map"},
 	}
 }
 
@@ -88,8 +88,15 @@ func enumH2() int { return 6 * 2 * 3 * len(badErrPreds) * nPos }
 func enumH3() int { return 6 * 2 * 2 * 2 }
 func enumH4() int { return 2 * nBeh * len(nilDataPreds) * nPos * 2 }
 func enumWave7() int {
-	return enumH1() + enumH2() + enumH3() + enumH4() + enumH5() + enumH6() + enumH7() + enumH8()
+	return enumH1() + enumH2() + enumH3() + enumH4() + enumH5() + enumH6() + enumH7() + enumH8() + enumH9()
 }
+
+// After hooks that put the expectation right (6 helpers x {V, *P} x behaviour x position), and
+// the pointer to a map (6 helpers x 10 behaviours incl. the emptied ones x {no predicate,
+// AnyError} x position x TypeHelper {nil, recording})
+func enumH9a() int { return 6 * 2 * nBeh * nPos }
+func enumH9b() int { return 6 * len(kindBehs) * 2 * nPos * 2 }
+func enumH9() int  { return enumH9a() + enumH9b() }
 
 // types that implement one encoding only: 6 helpers x {TextOnly, BinOnly, JSONOnly} x both
 // environments x {1, 3 cases} x behaviour
@@ -161,6 +168,39 @@ func wave7Spec(r int) (ls listSpec, ok bool) {
 		if long {
 			ls.cases = []caseSpec{c, plain, plain}
 		}
+	case r >= enumH1()+enumH2()+enumH3()+enumH4()+enumH5()+enumH6()+enumH7()+enumH8()+enumH9a():
+		r -= enumH1() + enumH2() + enumH3() + enumH4() + enumH5() + enumH6() + enumH7() + enumH8() + enumH9a()
+		c := caseSpec{payload: "x"}
+		ls.typeHelper = r % 2
+		r /= 2
+		pos := r % nPos
+		r /= nPos
+		if r%2 == 1 {
+			c.pred = pAny
+		}
+		r /= 2
+		c.beh = kindBehs[r%len(kindBehs)]
+		r /= len(kindBehs)
+		ls.shape = shPMap
+		ls.enc, ls.dir = r/2, r%2
+		if c.beh == bPanicAfterSet && ls.dir == dirMarshal {
+			return ls, false
+		}
+		ls.cases = place(c, pos)
+	case r >= enumH1()+enumH2()+enumH3()+enumH4()+enumH5()+enumH6()+enumH7()+enumH8():
+		r -= enumH1() + enumH2() + enumH3() + enumH4() + enumH5() + enumH6() + enumH7() + enumH8()
+		c := caseSpec{payload: "x", adjustAfter: true}
+		c.beh = r % nBeh
+		r /= nBeh
+		pos := r % nPos
+		r /= nPos
+		ls.shape = r % 2
+		r /= 2
+		ls.enc, ls.dir = r/2, r%2
+		if c.beh == bPanicAfterSet && ls.dir == dirMarshal {
+			return ls, false
+		}
+		ls.cases = place(c, pos)
 	case r >= enumH1()+enumH2()+enumH3()+enumH4()+enumH5()+enumH6()+enumH7():
 		r -= enumH1() + enumH2() + enumH3() + enumH4() + enumH5() + enumH6() + enumH7()
 		c := caseSpec{payload: "x"}
@@ -559,7 +599,7 @@ func classOf(ls listSpec, l *listRun) (nontrivial bool, classes []uint64) {
 		if l.failures[i] > 0 {
 			verdict = 1
 		}
-		h.Add(uint64(ls.enc*2+ls.dir)<<40 | uint64(ls.shape)<<32 | uint64(pos)<<28 | uint64(c.constraint)<<24 | uint64(c.beh)<<16 | uint64(c.before)<<12 | uint64(c.after)<<8 | uint64(c.pred)<<4 | uint64(verdict)<<1 | uint64(ls.typeHelper)<<50 | b2u(c.adjust)<<46 | uint64(c.wrongKind)<<52 | b2u(c.wildcard)<<47 | b2u(c.nilExpect)<<48 | b2u(c.other)<<49 | b2u(c.emptyData)<<55 | b2u(c.nilValue)<<44 | b2u(c.nilIface)<<45 | b2u(c.nilData)<<56 | b2u(c.adjustPred)<<57 | b2u(len(c.payload) > 1000)<<58)
+		h.Add(uint64(ls.enc*2+ls.dir)<<40 | uint64(ls.shape)<<32 | uint64(pos)<<28 | uint64(c.constraint)<<24 | uint64(c.beh)<<16 | uint64(c.before)<<12 | uint64(c.after)<<8 | uint64(c.pred)<<4 | uint64(verdict)<<1 | uint64(ls.typeHelper)<<50 | b2u(c.adjust)<<46 | uint64(c.wrongKind)<<52 | b2u(c.wildcard)<<47 | b2u(c.nilExpect)<<48 | b2u(c.other)<<49 | b2u(c.emptyData)<<55 | b2u(c.nilValue)<<44 | b2u(c.nilIface)<<45 | b2u(c.nilData)<<56 | b2u(c.adjustPred)<<57 | b2u(c.adjustAfter)<<59 | b2u(len(c.payload) > 1000)<<58)
 		classes = append(classes, uint64(h))
 	}
 	if !ls.hasInterface() && len(ls.cases) > 0 {
@@ -702,6 +742,12 @@ func probes(res *core.Result, ls listSpec, l *listRun) {
 		if c.adjustPred {
 			res.Probes.Inc("before_hook_installs_or_clears_predicate")
 		}
+		if c.adjustAfter {
+			res.Probes.Inc("after_hook_adjusts_expectation")
+		}
+		if ls.shape == shPMap && (c.beh == bErrorEmptied || c.beh == bEmptied) {
+			res.Probes.Inc("pointer_to_emptied_map")
+		}
 		if len(c.payload) > 1000 {
 			res.Probes.Inc("big_payload")
 		}
@@ -730,7 +776,7 @@ func finish(res *core.Result, ls listSpec, o core.RunOpts, extraTrace []string) 
 	h := core.NewHash()
 	h.Add(uint64(ls.enc*2+ls.dir)<<8 | uint64(ls.shape)<<4 | b2u(ls.goexit)<<1 | uint64(ls.typeHelper)<<2)
 	for _, c := range ls.cases {
-		h.Add(uint64(c.constraint)<<24 | uint64(c.beh)<<16 | uint64(c.before)<<12 | uint64(c.after)<<8 | uint64(c.pred) | b2u(c.nilValue)<<28 | b2u(c.nilIface)<<29 | b2u(c.adjust)<<30 | uint64(c.wrongKind)<<32 | b2u(c.wildcard)<<31 | b2u(c.nilExpect)<<36 | b2u(c.other)<<37 | b2u(c.emptyData)<<38 | b2u(c.nilData)<<39 | b2u(c.adjustPred)<<40 | b2u(len(c.payload) > 1000)<<41)
+		h.Add(uint64(c.constraint)<<24 | uint64(c.beh)<<16 | uint64(c.before)<<12 | uint64(c.after)<<8 | uint64(c.pred) | b2u(c.nilValue)<<28 | b2u(c.nilIface)<<29 | b2u(c.adjust)<<30 | uint64(c.wrongKind)<<32 | b2u(c.wildcard)<<31 | b2u(c.nilExpect)<<36 | b2u(c.other)<<37 | b2u(c.emptyData)<<38 | b2u(c.nilData)<<39 | b2u(c.adjustPred)<<40 | b2u(c.adjustAfter)<<42 | b2u(len(c.payload) > 1000)<<41)
 	}
 	for _, e := range l.events {
 		h.AddString(e.what)
@@ -787,7 +833,7 @@ func (Prop) RunEnum(i int, o core.RunOpts) *core.Result {
 // bigPayload is 70 400 bytes long.
 var bigPayload = strings.Repeat("0123456789abcdef", 4400)
 
-var shapeWeights = [...]int{shV, shV, shV, shP, shP, shP, shOnlyM, shOnlyU, shNone, shIface, shIface, shPV, shPV, shStr, shStr, shBytes, shBytes, shMap, shMap, shNum, shNum, shByte, shPval, shPval, shDoc, shDoc, shMemo, shMemo, shTextOnly, shBinOnly, shJSONOnly}
+var shapeWeights = [...]int{shV, shV, shV, shP, shP, shP, shOnlyM, shOnlyU, shNone, shIface, shIface, shPV, shPV, shStr, shStr, shBytes, shBytes, shMap, shMap, shNum, shNum, shByte, shPval, shPval, shDoc, shDoc, shMemo, shMemo, shTextOnly, shBinOnly, shJSONOnly, shPMap, shPMap}
 
 func genCase(t *core.Tape) caseSpec {
 	c := caseSpec{}
@@ -816,6 +862,7 @@ func genCase(t *core.Tape) caseSpec {
 	c.emptyData = t.Bool(1, 8)
 	c.nilData = t.Bool(1, 8)
 	c.adjustPred = t.Bool(1, 2)
+	c.adjustAfter = t.Bool(1, 10)
 	c.payload = [...]string{"p", "", "payload with spaces", "{\"k\":1}", "\x00\xff", "~", "line\n", "100% %s", "caf\xe9 \xff\xff"}[t.Choose(9)]
 	if t.Bool(1, 48) {
 		c.payload = bigPayload // well beyond any buffer or chunk size a comparison might use
